@@ -232,7 +232,7 @@ def _shard_exh(rec, arg):
 
 INTERLEAVE_OPS = [
     ("idx", 0), ("idx", 1), ("partial", 1), ("len",), ("mkcopy",),
-    ("c", "idx", 0), ("c", "idx", 1), ("c", "partial", 1), ("c", "partial", 2), ("c", "listify"),
+    ("c", "idx", 0), ("c", "idx", 1), ("c", "partial", 1), ("c", "partial", 2), ("c", "listify"), ("c", "reversed"),
 ]
 
 
@@ -354,9 +354,9 @@ def make_machine(rec):
         def count(self, v):
             self._step(("count", v))
 
-        @rule()
-        def rev(self):
-            self._step(("reversed",))
+        @rule(h=H)
+        def rev(self, h):
+            self._step(("reversed",), h)
 
         @rule(k=st.one_of(st.none(), st.integers(0, 4)))
         def copy(self, k):
